@@ -1,6 +1,7 @@
 package main
 
 import (
+	"runtime/debug"
 	"encoding/json"
 	"flag"
 	"fmt"
@@ -274,6 +275,9 @@ func verify(repoDir, verifDir, prop, tier, fnFilter, dump string, overlay map[st
 				defer func() {
 					if r := recover(); r != nil {
 						fr.Err = fmt.Sprintf("generator panic: %v", r)
+						if os.Getenv("GOVC_TRACE") != "" {
+							fmt.Fprintf(os.Stderr, "%s\n", debug.Stack())
+						}
 					}
 				}()
 				if err := v.Generate(); err != nil {
